@@ -138,6 +138,8 @@ pub fn real_templates(n: u32) -> Vec<(&'static str, Configuration<Sphere>)> {
             ("real_bh", bh::real_bh(bh::RealProblemParameters { num_particles: 6 }, cond(n)).unwrap()),
             ("real_rw", rw::real_rw(rw::RealProblemParameters { deviation: 0.3 }, cond(n)).unwrap()),
             ("real_rs", rs::real_rs(cond(n)).unwrap()),
+            // little kinetic energy: many reactions are rejected for lack of energy (their evaluated products are discarded)
+            ("real_cro[low energy]", cro::real_cro(cro::RealProblemParameters { initial_population_size: 6, mole_coll: 0.5, kinetic_energy_lr: 0.5, alpha: 3, beta: 0.5, initial_kinetic_energy: 1.0, buffer: 0.0, on_wall_deviation: 0.5, decomposition_deviation: 1.0 }, cond(40)).unwrap()),
             ("real_cro", cro::real_cro(cro::RealProblemParameters { initial_population_size: 6, mole_coll: 0.5, kinetic_energy_lr: 0.5, alpha: 5, beta: 0.2, initial_kinetic_energy: 50.0, buffer: 0.0, on_wall_deviation: 0.2, decomposition_deviation: 0.3 }, cond(n)).unwrap()),
     ]
 }
@@ -161,7 +163,7 @@ pub fn for_all_runs(check: &mut dyn FnMut(&RunResult)) -> u64 {
         let sp = Sphere { returned: Mutex::new(Vec::new()) };
         let n = 15;
         let real = real_templates(n);
-        for (name, c) in real { let r = run_one(name, seed, if name.contains("ils") { 5 } else { n }, &sp, &sp.returned, c, &|s: &Vec<f64>| sphere(s)); check(&r); runs += 1; }
+        for (name, c) in real { let r = run_one(name, seed, if name.contains("ils") { 5 } else if name.contains("low energy") { 40 } else { n }, &sp, &sp.returned, c, &|s: &Vec<f64>| sphere(s)); check(&r); runs += 1; }
         let pp = PermCost { returned: Mutex::new(Vec::new()) };
         let perm = perm_templates(n);
         for (name, c) in perm { let r = run_one(name, seed, if name.contains("ils") { 5 } else { n }, &pp, &pp.returned, c, &|s: &Vec<usize>| perm_cost(s)); check(&r); runs += 1; }
